@@ -76,6 +76,9 @@ impl core::ops::AddAssign for $T { fn add_assign(&mut self, rhs: $T) { self.val 
 /// R6 / R7: `assert!(e)`, `debug_assert!(e)` become a call whose precondition is `e`;
 /// a reachable failing assertion is therefore a failed obligation.
 pub fn vf_assert(b: bool) requires b {}
+/// must-fail probes: `if vf_nondet() { assert(false); }` -- each probe is independent of the others
+#[verifier::external_body]
+pub const fn vf_nondet() -> (b: bool) { true }
 /// R6: `panic!()` / `unreachable!()`
 pub fn vf_unreachable() requires false {}
 
